@@ -31,6 +31,11 @@ tvector convert(const dvec& values)
             throw bad_op("non-integer value for an integer container");
         }
         v[i] = static_cast<typename tvector::value_type>(values[i]);
+        // float containers: only values a float holds exactly (the model keeps them as doubles)
+        if (static_cast<double>(v[i]) != values[i])
+        {
+            throw bad_op("value not representable in the container's value type");
+        }
     }
     return v;
 }
@@ -46,8 +51,14 @@ tensor_mem_t<scalar_t, 1> to_tensor(const dvec& values)
 }
 
 template <class tcontainer>
-double call_percentile(const std::string& kind, tcontainer values, const double p)
+double call_percentile(const std::string& kind, tcontainer values, const double p, dvec* post = nullptr)
 {
+    if (kind == "positional")
+    {
+        // percentile_sorted on a range that is NOT sorted: the precondition is only an assert (compiled out); the code reads
+        // the two positions as they are (replay of the necessity witness `sorted_precondition_necessary`)
+        return percentile_sorted(std::begin(values), std::end(values), p);
+    }
     if (kind == "sorted")
     {
         // precondition of percentile_sorted (its assert is compiled out): the generator sends sorted lists only
@@ -59,22 +70,32 @@ double call_percentile(const std::string& kind, tcontainer values, const double 
     }
     if (kind == "unsorted")
     {
-        return percentile(std::begin(values), std::end(values), p);
+        const auto r = percentile(std::begin(values), std::end(values), p);
+        if (post != nullptr)
+        {
+            // the caller's range as the (one or two) nth_element calls left it: the python monitor checks the contract
+            post->clear();
+            for (auto it = std::begin(values); it != std::end(values); ++it)
+            {
+                post->push_back(static_cast<double>(*it));
+            }
+        }
+        return r;
     }
     throw bad_op("kind");
 }
 
-double op_pct(const std::string& kind, const std::string& type, const dvec& values, const double p)
+double op_pct(const std::string& kind, const std::string& type, const dvec& values, const double p, dvec* post = nullptr)
 {
     if (values.empty() || !(p >= 0.0 && p <= 100.0))
     {
         throw bad_op("outside the asserted domain");
     }
-    if (type == "d") return call_percentile(kind, values, p);
-    if (type == "f") return call_percentile(kind, convert<std::vector<float>>(values), p);
-    if (type == "i") return call_percentile(kind, convert<std::vector<int>>(values), p);
-    if (type == "l") return call_percentile(kind, convert<std::vector<int64_t>>(values), p);
-    if (type == "t") return call_percentile(kind, to_tensor(values), p);
+    if (type == "d") return call_percentile(kind, values, p, post);
+    if (type == "f") return call_percentile(kind, convert<std::vector<float>>(values), p, post);
+    if (type == "i") return call_percentile(kind, convert<std::vector<int>>(values), p, post);
+    if (type == "l") return call_percentile(kind, convert<std::vector<int64_t>>(values), p, post);
+    if (type == "t") return call_percentile(kind, to_tensor(values), p, post);
     throw bad_op("type");
 }
 
@@ -161,8 +182,68 @@ std::string vh::execute(toks_t& toks, std::string& aug)
         const auto type   = toks.s();
         const auto values = toks.fs();
         const auto p      = toks.f();
-        out_t      out;
-        out << "ok" << op_pct(kind, type, values, p);
+        dvec       post;
+        const auto r = op_pct(kind, type, values, p, &post);
+        if (kind == "unsorted")
+        {
+            out_t a;
+            a << line << "post";
+            a.flist(post);
+            aug = a.str();
+        }
+        out_t out;
+        out << "ok" << r;
+        return out.str();
+    }
+    if (op == "grid")
+    {
+        // the (p, n) grid of positions: percentages k / den, k = 0 .. 100 den, on the list 0 .. n-1 (reversed for `unsorted`):
+        // the answer reveals floor and ceil of the position computed in double
+        const auto kind = toks.s();
+        const auto type = toks.s();
+        const auto n    = toks.i64();
+        const auto den  = toks.i64();
+        if (n < 1 || n > 100000 || den < 1 || den > 1024 || kind == "positional")
+        {
+            throw bad_op("grid");
+        }
+        dvec values(static_cast<size_t>(n));
+        for (int64_t i = 0; i < n; ++i)
+        {
+            values[static_cast<size_t>(i)] = static_cast<double>(kind == "unsorted" ? n - 1 - i : i);
+        }
+        dvec results;
+        for (int64_t k = 0; k <= 100 * den; ++k)
+        {
+            results.push_back(op_pct(kind, type, values, static_cast<double>(k) / static_cast<double>(den)));
+        }
+        out_t out;
+        out << "ok";
+        out.flist(results);
+        return out.str();
+    }
+    if (op == "linspaced")
+    {
+        const auto kind = toks.s();
+        const auto bins = toks.i64();
+        if (bins < 2 || bins > 100000)
+        {
+            throw bad_op("assert(bins > 1)");
+        }
+        out_t out;
+        out << "ok";
+        if (kind == "ratios")
+        {
+            out.flist(make_equidistant_ratios(bins));
+        }
+        else if (kind == "pcts")
+        {
+            out.flist(make_equidistant_percentiles(bins));
+        }
+        else
+        {
+            throw bad_op("kind");
+        }
         return out.str();
     }
     if (op == "median")
@@ -276,9 +357,10 @@ std::string vh::execute(toks_t& toks, std::string& aug)
                 return "ok load-mismatch";
             }
         }
+        // the fields of stats_t in declaration order (equal to the slots, checked above)
         out_t out;
         out << "ok";
-        out.flist(stats);
+        out.flist(fields);
         return out.str();
     }
     throw bad_op("unknown op " + op);
